@@ -83,7 +83,8 @@ def gen_network(rng, focus):
         default = None
         if rng.random() < .3:
             default = [rng.randint(0, 3)] if kind == 'I' else [{'t': [rng.choice([0, 1]), 9]}]
-        sources.append({'queue': batches, 'oneAtATime': rng.random() < .75, 'default': default})
+        sources.append({'queue': batches, 'oneAtATime': rng.random() < .75, 'default': default,
+                        **({'asRdd': True} if rng.random() < .2 else {})})
         nodes.append({'kind': 'src', 'q': q})
         kinds.append(kind)
     target = rng.randint(2, 7)
@@ -203,7 +204,7 @@ class C10(Prop):
             # (a file removed before its first tick would never be delivered: only files already seen by a tick are removed,
             # except those of the very first tick, which may go before they were ever listed - the model's listings say so)
             return {'kind': 'files', 'pre': pre, 'between': between, 'ticks': ticks, 'removes': removes,
-                    'process_all': rng.random() < .3}
+                    'process_all': rng.random() < .3, 'spell': rng.choice(['glob', 'glob', 'dir', 'dir/', 'file://dir'])}
         sources, nodes = gen_network(rng, self.focus)
         longest = max([len(s['queue']) for s in sources] + [1])
         return {'sources': sources, 'nodes': nodes, 'ticks': rng.randint(1, longest + 3),
@@ -231,7 +232,10 @@ class C10(Prop):
         # rotation: in one interval a processed file disappears and a new one appears (same number of entries)
         files += [{'kind': 'files', 'pre': ['a.txt'], 'between': ['b.txt'], 'ticks': [['c.txt'], ['d.txt'], ['e.txt'], []],
                    'removes': [[], ['b.txt'], ['c.txt'], []], 'process_all': pa} for pa in (False, True)]
-        return [diamond, win, st, allq] + cbw + (files if self.focus == 'C10' else [])
+        files += [dict(f, spell=sp) for f in files[:2] for sp in ('dir', 'dir/', 'file://dir')]
+        rddq = [dict(diamond, sources=[{'queue': [[1, 2], [], [3]], 'oneAtATime': o, 'default': dflt, 'asRdd': True}])
+                for o in (True, False) for dflt in (None, [7])]
+        return [diamond, win, st, allq] + rddq + cbw + (files if self.focus == 'C10' else [])
 
     def nontrivial(self, case):
         if case.get('kind') == 'files':
@@ -282,7 +286,9 @@ class C10(Prop):
             try:
                 sc = ps.Context()
                 ssc = ps.streaming.StreamingContext(sc, float(case.get('batch', 1.0)))
-                stream = ssc.textFileStream(d + '/*', process_all=case['process_all'])
+                spelled = {'glob': d + '/*', 'dir': d, 'dir/': d + '/', 'file://dir': 'file://' + d}[case.get('spell', 'glob')]
+                ctx.note('spell:' + case.get('spell', 'glob'))
+                stream = ssc.textFileStream(spelled, process_all=case['process_all'])
                 a, b = [], []
                 stream.foreachRDD(self._capture(a))
                 stream.map(lambda x: x).foreachRDD(self._capture(b))      # a second derived stream shares the source
@@ -330,7 +336,10 @@ class C10(Prop):
                     k = n['kind']
                     if k == 'src':
                         s = case['sources'][n['q']]
-                        d = ssc.queueStream([[F.from_json(x) for x in b] for b in s['queue']], oneAtATime=s['oneAtATime'],
+                        batches = [[F.from_json(x) for x in b] for b in s['queue']]
+                        if s.get('asRdd'):
+                            batches = [sc.parallelize(b) for b in batches]      # a queue of datasets instead of lists
+                        d = ssc.queueStream(batches, oneAtATime=s['oneAtATime'],
                                             default=None if s['default'] is None else [F.from_json(x) for x in s['default']])
                         cnt = [0]
                         real_get = d._stream.get
